@@ -454,6 +454,9 @@ int reb_integrator_bs_step(struct reb_simulation* r, double dt){
     }
 
     const int forward = (dt >= 0.);
+    // A step at the minimal stepsize cannot be repeated with a smaller one.
+    const int at_min_dt = (ri_bs->min_dt != 0.0 && fabs(dt) <= ri_bs->min_dt);
+    int no_result = 0; // Set if the step was abandoned without an extrapolated result.
 
     // iterate over several substep sizes
     int k = -1;
@@ -471,6 +474,7 @@ int reb_integrator_bs_step(struct reb_simulation* r, double dt){
             REB_VERIF(r, "bs_it", 5, (double)k, 0., 0., 0., 0.);
             dt  = fabs(dt * stabilityReduction);
             reject = 1;
+            no_result = 1;
             loop   = 0;
 
         } else {
@@ -529,6 +533,7 @@ int reb_integrator_bs_step(struct reb_simulation* r, double dt){
                     REB_VERIF(r, "bs_it", 5, (double)k, 1., error, 0., 0.);
                     dt  = fabs(dt * stabilityReduction);
                     reject = 1;
+                    no_result = 1;
                     loop   = 0;
                 } else {
 
@@ -634,6 +639,17 @@ int reb_integrator_bs_step(struct reb_simulation* r, double dt){
         }
     }
 
+
+    if (reject && at_min_dt){
+        // Rejecting would repeat the identical attempt forever.
+        if (no_result){
+            reb_simulation_error(r, "Step failed at the minimal stepsize during ODE integration.");
+            r->status = REB_STATUS_GENERIC_ERROR;
+            return 0;
+        }
+        // Accept the step even though the error estimate is too large (as IAS15 does at its min_dt).
+        reject = 0;
+    }
 
     if (! reject) {
 #if DEBUG
